@@ -59,12 +59,13 @@ const (
 	opAuthLost  = 13 // n c x shape: the handshake authenticates, but its response cannot be written (peer reset): NOT a successful handshake
 	opShutdown  = 14 // n: graceful shutdown of node n's SessionManager (Close()); the adapters' deferred CloseConnection calls follow as Close ops
 	opFault     = 15 // n on: node n's cloud control starts (1) / stops (0) failing EnsureClientOnline (a fault of a collaborator; outside C08's quantifier)
+	opChallenge = 16 // n c x shape: a phase-1 handshake message (no proof): answered with a challenge (Success=false, no error); NOT a successful handshake
 	opSReg      = 10 // n c x ctl
 	opSUnreg    = 11 // n c
 	opSRefresh  = 12 // n c
 )
 
-var opName = map[int]string{0: "Connect", 1: "AuthOK", 2: "AuthFail", 3: "Kick", 4: "Heartbeat", 5: "Close", 6: "Tick", 7: "StaleSweep", 8: "Forward", 9: "ForwardRacingLogin", 13: "HandshakeResponseLost", 14: "NodeShutdown", 15: "CloudControlFault",
+var opName = map[int]string{0: "Connect", 1: "AuthOK", 2: "AuthFail", 3: "Kick", 4: "Heartbeat", 5: "Close", 6: "Tick", 7: "StaleSweep", 8: "Forward", 9: "ForwardRacingLogin", 13: "HandshakeResponseLost", 14: "NodeShutdown", 15: "CloudControlFault", 16: "HandshakePhase1Message",
 	10: "Register", 11: "Unregister", 12: "Refresh"}
 
 type caseIn struct {
@@ -117,6 +118,7 @@ func (t *transport) GetConnectionID() string { return t.id }
 // (The real handler does that for tunnel-typed handshakes as well; this one only for requests the server classifies as
 // control handshakes — see the report: candidate finding, not exercised here.)
 type authHandler struct {
+	chal  bool // answer with a challenge: Success=false, NeedResponse=true, no error, connection state untouched (phase 1)
 	ok    bool
 	x     int64
 	cloud *managers.BuiltinCloudControl
@@ -124,6 +126,10 @@ type authHandler struct {
 }
 
 func (h *authHandler) HandleHandshake(conn session.ControlConnectionInterface, req *packet.HandshakeRequest) (*packet.HandshakeResponse, error) {
+	if h.chal {
+		conn.SetPendingChallenge("verif-challenge")
+		return &packet.HandshakeResponse{Success: false, NeedResponse: true, Challenge: "verif-challenge"}, nil
+	}
 	if !h.ok || h.x <= 0 {
 		return &packet.HandshakeResponse{Success: false, Error: "rejected"}, errors.New("rejected")
 	}
@@ -340,6 +346,11 @@ func (w *world) apply(o []int, tr map[[2]int]*transport) bool {
 		err := w.sms[n].HandlePacket(&types.StreamPacket{ConnectionID: connName(c), Timestamp: time.Now(),
 			Packet: &packet.TransferPacket{PacketType: packet.Handshake, Payload: payload}})
 		return err != nil
+	case opChallenge:
+		w.auth[n].chal = true
+		e := w.apply([]int{opAuthFail, n, arg(o, 2), arg(o, 3), arg(o, 4)}, tr)
+		w.auth[n].chal = false
+		return e
 	case opShutdown:
 		_ = w.sms[n].Close()
 		return false
@@ -703,6 +714,8 @@ func (g *ghost) check(o []int, now int, clients []int, ans [][][3]int, msgs [][]
 						}
 					case opAuthLost:
 						key = "unanswered-handshake-took-the-index"
+					case opChallenge:
+						key = "unproven-handshake-message-took-the-index"
 					}
 					got := "NOT_FOUND"
 					if a[0] == 1 {
